@@ -390,6 +390,34 @@ pub mod atomic {
             s.post(&e);
             r
         }
+        #[track_caller]
+        #[inline]
+        pub fn store(&self, p: *mut T, o: Ordering) {
+            let Some(s) = sink() else {
+                return self.0.store(p, o);
+            };
+            let (a, f) = (self as *const _ as usize, Location::caller().file());
+            let mut e = ev(a, "store", o, None, p as usize as u64, true, f);
+            e.args[0] = p as usize as u64;
+            s.pre(&e);
+            self.0.store(p, o);
+            s.post(&e);
+        }
+        #[track_caller]
+        #[inline]
+        pub fn swap(&self, p: *mut T, o: Ordering) -> *mut T {
+            let Some(s) = sink() else {
+                return self.0.swap(p, o);
+            };
+            let (a, f) = (self as *const _ as usize, Location::caller().file());
+            let mut e = ev(a, "swap", o, None, 0, true, f);
+            e.args[0] = p as usize as u64;
+            s.pre(&e);
+            let r = self.0.swap(p, o);
+            e.val = r as usize as u64;
+            s.post(&e);
+            r
+        }
         #[inline]
         pub fn get_mut(&mut self) -> &mut *mut T {
             self.0.get_mut()
